@@ -367,6 +367,7 @@ def run(chk):
     clones.rule_defuse(chk, 'D1', 'D2', ('mgr',), floor=50)
     clones.rule_tables(chk, 'N5', ('mgr',), floor=20)
     clones.rule_unreachable(chk, 'U1', ('mgr',), floor=20)
+    clones.rule_insert_ladders(chk, 'N6', ('mgr',), floor=100)
     from . import twins
     twins.rule_common_flag(chk, P, 'Z1', floor=6)
     run_lanes(chk, P)
